@@ -88,6 +88,10 @@ type zzG08World struct {
 	keyOf    map[string]string // PEM of a private key -> id
 	certDir  string
 	boots    int
+	// hung is set when a request was not answered in time: the goroutine that
+	// serves it is still inside the handlers (possibly holding their locks),
+	// so nothing more can be learnt from this process.
+	hung bool
 }
 
 const (
@@ -186,7 +190,10 @@ func zzG08NewWorld(t testing.TB, names []string) (w *zzG08World) {
 	}
 
 	t.Cleanup(func() {
-		w.teardown()
+		if !w.hung {
+			w.teardown()
+		}
+
 		for _, c := range w.closers {
 			_ = c.Close()
 		}
@@ -453,17 +460,35 @@ func (w *zzG08World) do(method, target string, body []byte, user, pass string) (
 		r.SetBasicAuth(user, pass)
 	}
 
+	if w.hung {
+		return zzG08Resp{Status: -5, Panic: "an earlier request was never answered"}
+	}
+
 	rec := httptest.NewRecorder()
-	func() {
+	handler := w.handler
+	done := make(chan string, 1)
+	go func() {
 		// net/http recovers a panicking handler and drops the connection.
 		defer func() {
 			if p := recover(); p != nil {
-				resp.Panic = fmt.Sprint(p)
+				done <- fmt.Sprint(p)
+
+				return
 			}
+
+			done <- ""
 		}()
 
-		w.handler.ServeHTTP(rec, r)
+		handler.ServeHTTP(rec, r)
 	}()
+
+	select {
+	case resp.Panic = <-done:
+	case <-time.After(time.Duration(zzG08EnvInt("VERIF_G08_HANG_S", 20)) * time.Second):
+		w.hung = true
+
+		return zzG08Resp{Status: -5, Panic: "the request was not answered within the time limit"}
+	}
 
 	resp.Status = rec.Code
 	resp.Location = rec.Header().Get("Location")
@@ -1020,8 +1045,15 @@ func zzG08Walk(t testing.TB, a *zzG08Arena, out *zzWriter, vecs []*zzG08Vec, ini
 	resetArena()
 	budget := 40 * len(vecs)
 	target := -1
+	deadline := time.Now().Add(time.Duration(zzG08EnvInt("VERIF_G08_BUDGET_S", 600)) * time.Second)
 	for left > 0 && budget > 0 {
 		budget--
+		if time.Now().After(deadline) {
+			stats["out_of_time"] = 1
+
+			break
+		}
+
 		v := next()
 		if v == nil {
 			if cur != initID {
@@ -1074,6 +1106,13 @@ func zzG08Walk(t testing.TB, a *zzG08Arena, out *zzWriter, vecs []*zzG08Vec, ini
 			stats["bad"]++
 			out.put(map[string]any{"kind": "bad", "arena": a.name, "vec": v, "step": st, "obs": obs, "key": key,
 				"path": append([]int(nil), path...)})
+			if st.Code == -5 {
+				// A request that is never answered: this process is done.
+				stats["hung"] = 1
+
+				break
+			}
+
 			if !wasWanted {
 				// The way to some state is barred: do not try for ever.
 				for _, o := range v.Outs {
@@ -1194,6 +1233,10 @@ func zzG08RunScripts(t testing.TB, a *zzG08Arena, out *zzWriter, path string) {
 			}
 
 			out.put(rec)
+			if st.Code == -5 {
+				return
+			}
+
 			if st.Code < 0 {
 				break
 			}
